@@ -121,7 +121,7 @@ pub fn try_parse_partial_response<const N: usize>(
     let mut builder = Response::builder().version(version).status(status);
 
     for h in res.headers {
-        if h.name.is_empty() || h.value.is_empty() {
+        if h.name.is_empty() {
             break;
         }
         builder = builder.header(h.name, h.value);
